@@ -5,3 +5,4 @@ import WrglModel.Props.C12
 #print axioms Wrgl.C12_mark_exact
 #print axioms Wrgl.C12_reachable_kept_unreachable_gone
 #print axioms Wrgl.C12_idempotent
+#print axioms Wrgl.C12_fact_rootsAllRefs
